@@ -37,6 +37,22 @@ for v in data["values"]:
     else:
         out["self_dec"].append(("err", "no encoding"))
         out["self_dec_bytes"].append(("err", "no encoding"))
+# file API: dump()/load() on text and on binary files (every 7th value keeps the cost low)
+import io  # noqa: E402
+out["file_text"], out["file_binary"] = [], []
+for k, v in enumerate(data["values"]):
+    if k % 7:
+        out["file_text"].append(None)
+        out["file_binary"].append(None)
+        continue
+    for key, mk in (("file_text", io.StringIO), ("file_binary", io.BytesIO)):
+        def roundtrip(mk=mk, v=v):
+            fp = mk()
+            fast_json.dump(v, fp)
+            raw = fp.getvalue()
+            fp.seek(0)
+            return (raw if isinstance(raw, str) else raw.decode("utf-8"), fast_json.load(fp))
+        out[key].append(attempt(roundtrip))
 if data.get("foreign") is not None:
     for s in data["foreign"]:
         out["foreign_dec"].append(attempt(fast_json.loads, s) if s is not None else ("err", "no encoding"))
